@@ -375,7 +375,13 @@ func (lm *levelManager) canRemoveWalSegment(id uint32) bool {
 		return true
 	}
 	ptrs := lm.manifestMgr.RaftPointerSnapshot()
+	// A group that has written raft records but never recorded a truncation segment may still
+	// need every record it ever wrote: its pointer only names the newest segment.
+	untruncated := false
 	for _, ptr := range ptrs {
+		if ptr.Segment > 0 && ptr.SegmentIndex == 0 {
+			untruncated = true
+		}
 		if ptr.SegmentIndex > 0 {
 			if id >= uint32(ptr.SegmentIndex) {
 				return false
@@ -391,6 +397,9 @@ func (lm *levelManager) canRemoveWalSegment(id uint32) bool {
 	if lm.lsm != nil && lm.lsm.wal != nil {
 		metrics := lm.lsm.wal.SegmentRecordMetrics(id)
 		if metrics.RaftRecords() > 0 {
+			if untruncated {
+				return false
+			}
 			log.Printf("[wal] segment %d retains raft records during GC eligibility (raft_entries=%d raft_states=%d raft_snapshots=%d)", id, metrics.RaftEntries, metrics.RaftStates, metrics.RaftSnapshots)
 		}
 	}
